@@ -543,6 +543,7 @@ Inductive scen :=
                            is already done at entry (p_ctx = 0) or expires during the final flush / ack wait *)
 | ScReentrantHook       (* a user callback (pos: 0 send hook, 1 ack hook, 2 upstream closed handler, 3 downstream closed
                            handler, 4 send hook + Flush from the hook) calls back into the same stream: State() *)
+| ScDupBurst            (* pos requests one after the other, every answer written 6 times back-to-back *)
 | ScUpCloseSlowList.    (* Upstream.Close, ack withheld, both deadlines expire while sent.List is in progress *)
 (* BDup: the broker writes its answer 3-6 times back-to-back; the copies after the first are addressed to a request that
    is no longer registered and are dropped by the dispatcher *)
@@ -566,7 +567,8 @@ Definition scen_eqb (a b : scen) : bool :=
   | ScCloseWhilePending, ScCloseWhilePending | ScCloseDuringOutage, ScCloseDuringOutage
   | ScUpCloseDuringOutage, ScUpCloseDuringOutage | ScUpCloseSlowList, ScUpCloseSlowList
   | ScFlushAbandoned, ScFlushAbandoned | ScFloodThenRequest, ScFloodThenRequest
-  | ScReadManyGroups, ScReadManyGroups | ScCloseSilent, ScCloseSilent | ScReentrantHook, ScReentrantHook => true
+  | ScReadManyGroups, ScReadManyGroups | ScCloseSilent, ScCloseSilent | ScReentrantHook, ScReentrantHook
+  | ScDupBurst, ScDupBurst => true
   | _, _ => false
   end.
 
@@ -594,6 +596,7 @@ Definition scen_procs (sc : scen) (pr : params) : list proc :=
   | ScFlushAbandoned => [upWrite ctx; upFlush ctx (fun r => Ret r)]
   | ScFloodThenRequest => [connRequest 2 ctx 1]
   | ScReadManyGroups => [readDP ctx]
+  | ScDupBurst => [connRequest 2 ctx 1]
   | ScReentrantHook => [upFlush ctx (fun r => Ret r); upState]     (* the hook runs on the event dispatcher, outside every lock *)
   | ScCloseSilent => [upClose ctx (p_cto pr) 1]
   end.
@@ -745,7 +748,7 @@ Definition blk_ok (c : blk_case) : bool :=
      | ScConnClose | ScCloseWhilePending | ScCloseDuringOutage => outcome_eqb (b_follow c) OConnClosed && (b_follow_ms c <=? b_slack c)
      (* "later calls still work": after abandoned flushes / an inbound flood nobody collects, a call
         that a healthy broker answers at once succeeds, and so does the Close after it *)
-     | ScFlushAbandoned | ScFloodThenRequest | ScReadManyGroups | ScReentrantHook =>
+     | ScFlushAbandoned | ScFloodThenRequest | ScReadManyGroups | ScReentrantHook | ScDupBurst =>
          outcome_eqb (b_class c) ONil && outcome_eqb (b_follow c) ONil
      | _ => outcome_eqb (b_follow c) ONil
      end.
